@@ -112,6 +112,32 @@ def check_component(ctx, comp, terms, domains, na, nx, mode, pts, case, sig_pref
                             f'(error {float(abs(Fraction(got) - ref)) if got == got else "nan":.3e}, allowed {float(bound):.1e})',
                             {**case, 'x': x, 'output': out, 'mode': mode})
                 return False
+    # evaluation points handed over as arrays that broadcast against each other axis by axis ((N, 1) with (1, M)): the result has shape (N, M)
+    # and entry (i, j) is the value at (x0_i, x1_j, ...)
+    if len(pts) >= 2 and nx >= 2:
+        a0 = [pts[0][0], pts[1][0], pts[-1][0]]; a1 = [pts[0][1], pts[-1][1]]
+        rest = [pts[0][k] for k in range(2, nx)]
+        xin = {names[0]: comp.inputs[names[0]].normalize(np.array(a0).reshape(3, 1)), names[1]: comp.inputs[names[1]].normalize(np.array(a1).reshape(1, 2))}
+        for k in range(2, nx):
+            xin[names[k]] = comp.inputs[names[k]].normalize(np.array([[rest[k - 2]]]))
+        try:
+            pred = comp.predict(xin, index_set=mode)
+        except Exception as e:
+            ctx.violate(f'{sig_prefix}:predict-raises', f'Component.predict on broadcastable inputs raised {type(e).__name__}: {e}', {**case, 'broadcast': True}); return
+        for out in terms:
+            arr = np.asarray(comp.outputs[out].denormalize(pred[out]), dtype=float)
+            if arr.shape != (3, 2):
+                ctx.violate(f'{sig_prefix}:not-exact', f'inputs of shapes (3, 1) and (1, 2) returned {out} of shape {arr.shape}', {**case, 'broadcast': True}); return False
+            for i_ in range(3):
+                for j_ in range(2):
+                    x = [a0[i_], a1[j_]] + rest
+                    ref, rabs = exact_value(terms[out], domains, x)
+                    box = sum(abs(Fraction(c)) for c, _ in terms[out])
+                    got = float(arr[i_, j_])
+                    if not (got == got and abs(Fraction(got) - ref) <= TWO30 * lebesgue * (max(rabs, box) + 1)):
+                        ctx.violate(f'{sig_prefix}:not-exact', f'{mode}-mode surrogate of {out} on broadcast inputs, entry ({i_}, {j_}) = {got}; the polynomial at x={x} gives '
+                                    f'{float(ref)}', {**case, 'broadcast': True, 'x': x, 'output': out, 'mode': mode})
+                        return False
     # the same evaluation through an executor (the tensor interpolants are evaluated as separate jobs) must give the same values
     if pts and getattr(ctx, 'tier', 'quick') is not None:
         from concurrent.futures import ThreadPoolExecutor
